@@ -339,10 +339,36 @@ fn replay(g: u64, hist: &[Op], rep: &mut Report) -> Option<(W, bool)> {
 pub fn main(tier: Tier, _replay: Option<String>) -> i32 {
     let mut rep = Report::new("C19", tier.clone(), "model_checking");
     let depth = if tier.thorough { 8 } else { 6 };
-    rep.bounds = json!({"depth": depth, "genesis_period": 3, "alphabet": OPS.iter().map(|o| format!("{:?}", o)).collect::<Vec<_>>()});
-    rep.rule = "breadth-first search over operation sequences on the producer node's real wallet at genesis period 3 (outputs expire inside the bound); state = history, deduplicated by the observable digest (chain, utxo, wallet slips / unspent / balance, pool)".into();
+    rep.bounds = json!({"depth": depth, "genesis_periods": [3, 6], "alphabet": OPS.iter().map(|o| format!("{:?}", o)).collect::<Vec<_>>()});
+    rep.rule = "breadth-first search over operation sequences on the producer node's real wallet at genesis period 3 (outputs expire inside the bound) and 6 (nothing expires: what a reorganisation returns can be spent again); state = history, deduplicated by the observable digest (chain, utxo, wallet slips / unspent / balance, pool)".into();
     rep.assumptions = vec!["an output created exactly genesis_period blocks before the tip is a don't-care for the ledger comparison (window edge)".into(), "ledger comparison only on histories without reorganisation, balance = sum(unspent) always".into()];
-    let g = 3u64;
+    let g: u64 = std::env::var("VERIF_C19_G").ok().and_then(|x| x.parse().ok()).unwrap_or(3);
+    if let Ok(hs) = std::env::var("VERIF_C19_HISTORY") {
+        // developer aid: evaluate one history, e.g. VERIF_C19_HISTORY=In1,Block,OutSmall,Block,ReorgAway1,OutAll
+        let hist: Vec<Op> = hs.split(',').filter_map(|n| OPS.iter().find(|o| format!("{:?}", o) == n.trim()).cloned()).collect();
+        let mut r = rep.child();
+        for i in 1..=hist.len() {
+            let h = &hist[..i];
+            match replay(g, h, &mut r) {
+                Some((w, ok)) => {
+                    println!("{:?}: applicable={} tip={} balance={} unspent={:?}", h.last().unwrap(), ok, w.p.tip_id, balance(&w), wallet_fingerprint(&w).1);
+                    if ok {
+                        invariants(&w, &mut r, h);
+                    }
+                }
+                None => println!("{:?}: replay failed", h.last().unwrap()),
+            }
+        }
+        for (k, v) in r.outcomes.iter() {
+            println!("  {} {}", v, k);
+        }
+        return 0;
+    }
+    let cap: usize = std::env::var("VERIF_C19_CAP").ok().and_then(|x| x.parse().ok()).unwrap_or(if tier.thorough { 6000 } else { 20000 });
+    let mut all_seen: BTreeSet<Hash> = BTreeSet::new();
+    // genesis period 3: outputs expire inside the bound; genesis period 6: nothing expires, so that
+    // what a reorganisation gives back to the wallet is still young enough to be spent again
+    for g in [3u64, 6] {
     let mut seen: BTreeSet<Hash> = BTreeSet::new();
     let mut frontier: Vec<Vec<Op>> = vec![vec![]];
     let mut level = 0;
@@ -380,18 +406,20 @@ pub fn main(tier: Tier, _replay: Option<String>) -> i32 {
                 }
             }
         }
-        rep.outcome_n(&format!("level-{}-new-states", level), next.len() as u64);
+        rep.outcome_n(&format!("g{}:level-{}-new-states", g, level), next.len() as u64);
         // keep the frontier tractable: beyond depth 4 continue only from histories that contain
         // at most two non-Block operations in a row (documented cap)
-        if level >= 4 && next.len() > 1500 {
+        if level >= 4 && next.len() > cap {
             rep.exhaustive = false;
-            next.truncate(1500);
-            rep.extra.insert("frontier_cap".into(), json!({"level": level, "kept": 1500}));
+            next.truncate(cap);
+            rep.extra.insert("frontier_cap".into(), json!({"level": level, "kept": cap}));
         }
         frontier = next;
     }
-    rep.states = seen.len() as u64;
-    rep.distinct = seen.iter().map(|h| hex::encode(&h[0..8])).collect();
+    rep.states += seen.len() as u64;
+    all_seen.extend(seen);
+    }
+    rep.distinct = all_seen.iter().map(|h| hex::encode(&h[0..8])).collect();
     rep.sample(json!({"history": ["In1", "Block", "OutSmall", "Block", "ReorgAway1", "ReorgBack"]}));
     rep.required_outcomes = vec!["wallet-tx-built".into(), "reorg-away".into(), "reorg-back".into()];
     rep.finish()
